@@ -2,8 +2,8 @@ import IoraModel.Model.Json
 /-!
 Executable reference for the two libc primitives on JSON's floating path, in exact natural-number arithmetic:
 `strtodBits` (correctly rounded, round-half-even decimal → binary64, what glibc's `strtod` computes in the default rounding mode)
-and `formatDouble` (`Json::_formatDouble`: the shortest of `%.15g`, `%.16g`, `%.17g` that reads back, with `.0` appended to
-an integer-looking token, `null` for non-finite values; glibc's `printf` rounds the exact binary value half-even).
+and `fmtG` (`printf("%.{p}g")`; glibc's `printf` rounds the exact binary value half-even).  `Json::_formatDouble` itself is part
+of the model proper (`Iora.Json.formatDouble`) and of theorem J2.
 
 Nothing is proved about these two functions: they instantiate the `FloatOps` parameter of the model in the native driver so
 that doubles take part in the lockstep comparison bit for bit; the theorems of C13 quantify over every `FloatOps`.
@@ -79,8 +79,6 @@ def strtodBits (tok : Bytes) : UInt64 :=
     else if e10 ≥ 0 then UInt64.ofNat (sign + roundRat (m * 10 ^ e10.toNat) 1)
     else UInt64.ofNat (sign + roundRat m (10 ^ (-e10).toNat))
 
-def isFiniteBits (b : UInt64) : Bool := (b.toNat / 2 ^ 52) % 2048 ≠ 2047
-
 def stripZeros (ds : Bytes) : Bytes := (ds.reverse.dropWhile (· = 0x30)).reverse
 
 def ge10 (num den : Nat) (x : Int) : Bool :=
@@ -114,18 +112,7 @@ def fmtG (p : Nat) (bits : UInt64) : Bytes :=
     else
       sgn ++ [0x30, 0x2E] ++ List.replicate ((-x).toNat - 1) 0x30 ++ stripZeros ds
 
-def fmtSearch (bits : UInt64) : Nat → Nat → Bytes
-  | 0, p => fmtG p bits
-  | k + 1, p => let s := fmtG p bits; if strtodBits s = bits then s else fmtSearch bits k (p + 1)
-
-/-- mirrors `Json::_formatDouble` -/
-def formatDouble (bits : UInt64) : Bytes :=
-  if !isFiniteBits bits then Gen.Json.fmtNonFinite.toUTF8.toList
-  else
-    let s := fmtSearch bits (Gen.Json.fmtPrecHi - Gen.Json.fmtPrecLo) Gen.Json.fmtPrecLo
-    if s.any (fun c => Gen.Json.fmtMarkers.contains c.toNat) then s else s ++ Gen.Json.fmtSuffix.map b8
-
 /-- the instance used by the native driver -/
-def ops : FloatOps := { strtod := strtodBits, fmt := formatDouble }
+def ops : FloatOps := { strtod := strtodBits, printfG := fmtG }
 
 end Iora.Json.FloatRef
